@@ -543,6 +543,65 @@ pub fn run(ctx: &Ctx) {
                 cases.push((buf, at));
             }
         }
+        // every amount 0..=257 of label bytes in place (long labels / one-byte labels), closed by
+        // a pointer to a bare root byte, a pointer to a one-label name, or the root
+        let mut sized_msgs: Vec<Vec<u8>> = Vec::new();
+        for total in 0..=257usize {
+            for style in 0..2 {
+                let mut labels: Vec<usize> = Vec::new(); // label lengths
+                let mut left = total;
+                if style == 0 {
+                    while left >= 64 + 2 || left == 64 {
+                        labels.push(63);
+                        left -= 64;
+                    }
+                    if left >= 2 {
+                        labels.push(left - 1);
+                        left = 0;
+                    }
+                } else {
+                    if left % 2 == 1 && left >= 3 {
+                        labels.push(2);
+                        left -= 3;
+                    }
+                    while left >= 2 {
+                        labels.push(1);
+                        left -= 2;
+                    }
+                }
+                if left != 0 {
+                    continue;
+                }
+                let mut inplace: Vec<u8> = Vec::new();
+                for (i, l) in labels.iter().enumerate() {
+                    inplace.push(*l as u8);
+                    inplace.extend(std::iter::repeat(b'a' + (i % 26) as u8).take(*l));
+                }
+                for closer in 0..3 {
+                    let mut buf: Vec<u8> = vec![1, b'r', 0];
+                    let at = buf.len();
+                    buf.extend_from_slice(&inplace);
+                    match closer {
+                        0 => buf.extend_from_slice(&[0xc0, 2]),
+                        1 => buf.extend_from_slice(&[0xc0, 0]),
+                        _ => buf.push(0),
+                    }
+                    buf.extend_from_slice(&[0xde, 0xad]);
+                    cases.push((buf, at));
+                    // the same name as the second question of a message (first question: "r")
+                    let mut m = header([2, 0, 0, 0]);
+                    m.extend_from_slice(&[1, b'r', 0, 0, 1, 0, 1]);
+                    m.extend_from_slice(&inplace);
+                    match closer {
+                        0 => m.extend_from_slice(&[0xc0, 14]),
+                        1 => m.extend_from_slice(&[0xc0, 12]),
+                        _ => m.push(0),
+                    }
+                    m.extend_from_slice(&[0, 16, 0, 1]);
+                    sized_msgs.push(m);
+                }
+            }
+        }
         let n_at = cases.len() as u64;
         let chunks: Vec<&[(Vec<u8>, usize)]> = cases.chunks(128).collect();
         par_shards(ctx, &chunks, |cs, t: &mut Tally| {
@@ -558,8 +617,9 @@ pub fn run(ctx: &Ctx) {
                 }
             }
         });
-        ctx.space(&format!("many-step names (decoded by hook): chains of every length 1..={} label-less backward pointers ending at a 1-label name and 1..=700 ending at 126- and 127-label names, 1..=200 hops each adding a label, 0..=130 inline labels closed by a pointer or the root, every pair of label lengths (1..=63, 0..=63) before a pointer", max_chain), n_at, "complete");
-        let msgs = crate::gen::name_shape_messages(ctx.tier.pick(700usize, 2100usize));
+        ctx.space(&format!("many-step names (decoded by hook): chains of every length 1..={} label-less backward pointers ending at a 1-label name and 1..=700 ending at 126- and 127-label names, 1..=200 hops each adding a label, 0..=130 inline labels closed by a pointer or the root, every pair of label lengths (1..=63, 0..=63) before a pointer, every amount 0..=257 of in-place label bytes (63-byte and one-byte labels) closed by a pointer to a bare root byte / a pointer to a one-label name / the root", max_chain), n_at, "complete");
+        let mut msgs = crate::gen::name_shape_messages(ctx.tier.pick(700usize, 2100usize));
+        msgs.extend(sized_msgs);
         let mchunks: Vec<&[Vec<u8>]> = msgs.chunks(64).collect();
         par_shards(ctx, &mchunks, |ms, t: &mut Tally| {
             for m in ms.iter() {
